@@ -149,7 +149,8 @@ def validate(traces: list[dict], focus: set[str], *, module: str = "MySensorsTra
                 s = summary(out)
                 states += s["distinct"]
                 if s["error"] or s["violated"]:
-                    raise TLCError(f"TLC failed on shard {k}:\n{out[-3000:]}")
+                    first = out.find("Error:")
+                    raise TLCError(f"TLC failed on shard {k}:\n{out[first:first + 2500] if first >= 0 else out[-3000:]}")
                 for local, i in enumerate(idx, start=1):
                     if local not in verdict:
                         raise TLCError(f"no verdict for trace {i} (shard {k}):\n{out[-2000:]}")
